@@ -6,7 +6,7 @@ CONSTANTS
   QTypes <- QTypesFour
   Vals = {1, 2}
   ValsOf <- MCValsOne
-  OpFamilies = {"W", "U", "M"}
+  OpFamilies = {"W", "U", "M", "B"}
   Writers = {"w1"}
   Readers = {}
   MaxVer = 1
